@@ -1271,8 +1271,16 @@ class Conc:
                     return False
                 left = right
             return True
-        if isinstance(e, (ast.List, ast.Tuple)) and not any(isinstance(x, ast.Starred) for x in e.elts):
-            v = [self.ev(x, env) for x in e.elts]
+        if isinstance(e, (ast.List, ast.Tuple)):
+            v = []
+            for x in e.elts:
+                if isinstance(x, ast.Starred):      # [*rows, ...]: the rows of another table
+                    sp = self.ev(x.value, env)
+                    if not isinstance(sp, (list, tuple)):
+                        raise Undecided(f'{self.where}: unpacking of {u(x.value)[:50]} (value {sp!r})')
+                    v += list(sp)
+                else:
+                    v.append(self.ev(x, env))
             return v if isinstance(e, ast.List) else tuple(v)
         if isinstance(e, ast.Subscript) and not isinstance(e.slice, ast.Slice):
             b, i = self.ev(e.value, env), self.ev(e.slice, env)
@@ -1299,9 +1307,40 @@ class Conc:
             l, r = self.ev(e.left, env), self.ev(e.right, env)
             if isinstance(l, int) and isinstance(r, int):
                 return l + r if isinstance(e.op, ast.Add) else l - r
+            if isinstance(e.op, ast.Add) and type(l) is type(r) and isinstance(l, (str, list, tuple)):
+                return l + r        # concatenation of texts / tables
             raise Undecided(f'{self.where}: arithmetic {u(e)[:60]}')
         if isinstance(e, ast.JoinedStr):
-            return '<formatted text>'
+            out = ''
+            for part in e.values:
+                if isinstance(part, ast.Constant):
+                    out += str(part.value)
+                    continue
+                v = self.ev(part.value, env)
+                if part.format_spec is not None or not (v is None or type(v) in (str, int, bool)) or part.conversion not in (-1, 114, 115):
+                    return '<formatted text>'       # a text the rules do not look into (messages)
+                out += repr(v) if part.conversion == 114 else str(v)
+            return out
+        if isinstance(e, (ast.ListComp, ast.GeneratorExp)):
+            rows = []
+
+            def loops(i, env2):
+                if i == len(e.generators):
+                    rows.append(self.ev(e.elt, env2))
+                    return
+                g = e.generators[i]
+                it = self.ev(g.iter, env2)
+                if isinstance(it, dict):
+                    it = list(it)
+                if g.is_async or not isinstance(it, (list, tuple)):
+                    raise Undecided(f'{self.where}: comprehension over {u(g.iter)[:40]} (value {it!r})')
+                for x in it:
+                    env3 = dict(env2)
+                    self.assign(g.target, x, env3, e)
+                    if all(self.truth(self.ev(c, env3)) for c in g.ifs):
+                        loops(i + 1, env3)
+            loops(0, dict(env))
+            return rows
         if isinstance(e, ast.Call):
             return self.call(e, env)
         if isinstance(e, ast.Attribute):
@@ -1386,6 +1425,8 @@ class Conc:
         if isinstance(f, ast.Attribute) and f.attr != 'split':
             b = self.ev(f.value, env)
             args = [self.ev(a, env) for a in e.args]
+            if isinstance(b, str) and f.attr == 'join' and len(args) == 1 and isinstance(args[0], (list, tuple)) and all(isinstance(x, str) for x in args[0]):
+                return b.join(args[0])
             if isinstance(b, dict) and f.attr in self.DICT_METHODS:
                 if f.attr in ('setdefault', 'get', 'pop') and args:
                     self.key(args[0], e)
@@ -1655,6 +1696,31 @@ def check_default_dialect(m, init):
     return n, None
 
 
+def column_table(m, ex, node):
+    """The (header, path) table CSVResultsExporter.COLUMNS holds once the class body has run: a literal, or built at class-definition time
+    from literal tables by concatenation / unpacking / comprehensions / calls of module-level helpers, evaluated through their definitions
+    (the construction itself is evaluated, not a sample of inputs)."""
+    try:
+        cols = ast.literal_eval(node)
+    except Exception:
+        c = Conc(None, f'{ex.name}.COLUMNS', model=m, module=ex.module)
+        env = {}
+        # names of the class body defined before the table (class-level helper tables)
+        for sub in ex.node.body:
+            if isinstance(sub, ast.Assign) and len(sub.targets) == 1 and isinstance(sub.targets[0], ast.Name):
+                if sub.value is node:
+                    break
+                if any(isinstance(n, ast.Name) and n.id == sub.targets[0].id for n in ast.walk(node)):
+                    env[sub.targets[0].id] = c.ev(sub.value, env)
+        try:
+            cols = c.ev(node, env)
+        except _Raise as r:
+            raise Undecided(f'{ex.name}.COLUMNS: building the table raises {r.kind}')
+    if not (isinstance(cols, (list, tuple)) and all(isinstance(r, (list, tuple)) and len(r) == 2 and all(isinstance(x, str) for x in r) for r in cols)):
+        raise Undecided(f'{ex.name}.COLUMNS does not evaluate to a table of (header, path) pairs: {str(cols)[:120]}')
+    return [tuple(r) for r in cols]
+
+
 # ====================================================================== CSV
 
 def check_csv(ctx):
@@ -1662,10 +1728,7 @@ def check_csv(ctx):
     ex = m.cls(f'{R}.CSVResultsExporter')
     cols_node = ex.class_attrs.get('COLUMNS')
     rep.require(cols_node is not None, 'CSVResultsExporter.COLUMNS not found')
-    try:
-        cols = ast.literal_eval(cols_node)
-    except Exception:
-        raise Undecided('CSVResultsExporter.COLUMNS is not a literal table')
+    cols = column_table(m, ex, cols_node)
     rep.floor('E1', 'CSV columns', len(cols), 1)
     for hdr, path in cols:
         ok, why = resolve_path(m, 'gambit.query.QueryResultItem', path)
@@ -2423,4 +2486,29 @@ VARIANTS += [
     V('dispatch table guarded by the inverted type test', 'B', _Q, _CHAIN, _TABLE % "not ", 'E3', also=((_Q, "def get_exporter(outfmt: str):\n", _TABLE_DEF % "JSONResultsExporter"),)),
     V('if chain returns the archive writer for json', 'B', _Q, "\tif outfmt == 'json':\n\t\treturn JSONResultsExporter()\n", "\tif outfmt == 'json':\n\t\treturn ResultsArchiveWriter()\n", 'E3'),
     V('if chain falls through without an exporter for archive', 'B', _Q, "\tif outfmt == 'archive':\n\t\treturn ResultsArchiveWriter()\n", "\tif outfmt == 'archive':\n\t\tpass\n", 'E3'),
+]
+
+# ---- pass 4: COLUMNS generated at class-definition time from shared literal tables (E1/E2 apply to the evaluated table)
+_PRED_GROUP = "\t\t('predicted.name', 'report_taxon.name'),\n\t\t('predicted.rank', 'report_taxon.rank'),\n\t\t('predicted.ncbi_id', 'report_taxon.ncbi_id'),\n\t\t('predicted.threshold', 'report_taxon.distance_threshold'),\n"
+_NEXT_GROUP = "\t\t('next.name', 'classifier_result.next_taxon.name'),\n\t\t('next.rank', 'classifier_result.next_taxon.rank'),\n\t\t('next.ncbi_id', 'classifier_result.next_taxon.ncbi_id'),\n\t\t('next.threshold', 'classifier_result.next_taxon.distance_threshold'),\n"
+_TAXCOLS = "_TAXON_COLUMNS = [\n\t('name', 'name'),\n%s\t('ncbi_id', 'ncbi_id'),\n\t('threshold', %s),\n]\n\n\ndef _taxon_columns(prefix, attrs):\n\treturn [(f'{prefix}.{name}', f'{attrs}.{attr}') for name, attr in _TAXON_COLUMNS]\n\n\n"
+
+
+def _generated(pred_root, rank_row="\t('rank', 'rank'),\n", thr="'distance_threshold'"):
+    return dict(old=_PRED_GROUP, new=f"\t\t*_taxon_columns('predicted', '{pred_root}'),\n",
+                also=((_R, _NEXT_GROUP, "\t\t*_taxon_columns('next', 'classifier_result.next_taxon'),\n"), (_R, _CSV_CLASS, (_TAXCOLS % (rank_row, thr)) + _CSV_CLASS)))
+
+
+_CONCAT = ("\tCOLUMNS = [('query', 'input.label')] + [('predicted.' + n, 'report_taxon.' + a) for n, a in _TAXON_COLUMNS] + [\n"
+           "\t\t('closest.distance', 'classifier_result.closest_match.distance'),\n\t\t('closest.description', 'classifier_result.closest_match.genome.description'),\n"
+           "\t] + [('.'.join(['next', n]), 'classifier_result.%s.' + a) for n, a in _TAXON_COLUMNS]\n")
+_COLUMNS_LITERAL = "\tCOLUMNS = [\n\t\t('query', 'input.label'),\n" + _PRED_GROUP + "\t\t('closest.distance', 'classifier_result.closest_match.distance'),\n\t\t('closest.description', 'classifier_result.closest_match.genome.description'),\n" + _NEXT_GROUP + "\t]\n"
+VARIANTS += [
+    V('E: taxon column groups generated by a helper from a shared table', 'E', _R, **_generated('report_taxon')),
+    V('generated predicted.* group reads the raw predicted taxon (seed C11d)', 'B', _R, expect='E2', **_generated('classifier_result.predicted_taxon')),
+    V('shared taxon table pairs threshold with the NCBI id', 'B', _R, expect='E2', **_generated('report_taxon', thr="'ncbi_id'")),
+    V('shared taxon table lacks the rank row', 'B', _R, expect='E2', **_generated('report_taxon', rank_row="")),
+    V('shared taxon table names a non-attribute', 'B', _R, expect='E1', **_generated('report_taxon', thr="'threshold'")),
+    V('E: COLUMNS concatenated from comprehensions over a shared table', 'E', _R, _COLUMNS_LITERAL, _CONCAT % 'next_taxon', also=((_R, _CSV_CLASS, (_TAXCOLS % ("\t('rank', 'rank'),\n", "'distance_threshold'")) + _CSV_CLASS),)),
+    V('concatenated COLUMNS take next.* from the predicted taxon', 'B', _R, _COLUMNS_LITERAL, _CONCAT % 'predicted_taxon', 'E2', also=((_R, _CSV_CLASS, (_TAXCOLS % ("\t('rank', 'rank'),\n", "'distance_threshold'")) + _CSV_CLASS),)),
 ]
